@@ -43,7 +43,7 @@ theorem EntryWF.mono {n n' : Nat} {e : SDEntry} (h : EntryWF n e) (hn : n ≤ n'
   exact ⟨i, h0, h1, h2, h3, h4, h5, h6, h7, h8, h9, h10, h11, by omega, by omega, h14⟩
 
 theorem assign_entry_bounds (e : SDEntry) (opts : List SDOption) (hres : e.idx = none) (hf : EntryFields e)
-    (hcap : opts.length + e.opts1.length + e.opts2.length ≤ 256) :
+    (hcap : (e.assign opts).2.length ≤ 256) :
     let r := e.assign opts
     EntryWF r.2.length r.1 ∧ opts.length ≤ r.2.length ∧ r.2.length ≤ opts.length + e.opts1.length + e.opts2.length ∧
     (∀ o ∈ r.2, o ∈ opts ∨ o ∈ e.opts1 ∨ o ∈ e.opts2) := by
@@ -53,6 +53,7 @@ theorem assign_entry_bounds (e : SDEntry) (opts : List SDOption) (hres : e.idx =
   simp only at b1 b2
   obtain ⟨c1, c2, c3, c4, c5, c6⟩ := b1
   obtain ⟨d1, d2, d3, d4, d5, d6⟩ := b2
+  simp only [SDEntry.assign, hres] at hcap
   simp only [SDEntry.assign, hres]
   refine ⟨⟨_, rfl, rfl, rfl, ?_, ?_, ?_, ?_, f1, f2, f3, f4, f5, ?_, ?_, f6⟩, by omega, by omega, ?_⟩
   · simp only; omega
@@ -79,21 +80,20 @@ theorem assign_entry_bounds (e : SDEntry) (opts : List SDOption) (hres : e.idx =
 def runsLen (es : List SDEntry) : Nat := (es.map fun e => e.opts1.length + e.opts2.length).sum
 
 theorem assignAll_bounds (es : List SDEntry) (opts : List SDOption) (hres : ∀ e ∈ es, e.idx = none)
-    (hf : ∀ e ∈ es, EntryFields e) (hcap : opts.length + runsLen es ≤ 256) :
+    (hf : ∀ e ∈ es, EntryFields e) (hcap : (assignAll es opts).2.length ≤ 256) :
     let r := assignAll es opts
     (∀ e ∈ r.1, EntryWF r.2.length e) ∧ opts.length ≤ r.2.length ∧ r.2.length ≤ opts.length + runsLen es ∧
     r.1.length = es.length ∧ (∀ o ∈ r.2, o ∈ opts ∨ ∃ e ∈ es, o ∈ e.opts1 ∨ o ∈ e.opts2) := by
   induction es generalizing opts with
   | nil => simp [assignAll, runsLen]
   | cons e t ih =>
-    simp only [runsLen, List.map_cons, List.sum_cons] at hcap
+    simp only [assignAll] at hcap
+    have ht := ih (e.assign opts).2 (fun x hx => hres x (by simp [hx])) (fun x hx => hf x (by simp [hx])) hcap
+    simp only at ht
+    obtain ⟨t1, t2, t3, t4, t5⟩ := ht
     have hb := assign_entry_bounds e opts (hres e (by simp)) (hf e (by simp)) (by omega)
     simp only at hb
     obtain ⟨a1, a2, a3, a4⟩ := hb
-    have ht := ih (e.assign opts).2 (fun x hx => hres x (by simp [hx])) (fun x hx => hf x (by simp [hx]))
-      (by simp only [runsLen]; omega)
-    simp only at ht
-    obtain ⟨t1, t2, t3, t4, t5⟩ := ht
     simp only [assignAll, runsLen, List.map_cons, List.sum_cons]
     refine ⟨?_, by omega, by simp only [runsLen] at t3; omega, by simp [t4], ?_⟩
     · intro x hx
@@ -124,10 +124,12 @@ theorem sum_wireLen_le (os : List SDOption) (h : ∀ o ∈ os, o.WF) : (os.map S
     have := ih (fun x hx => h x (by simp [hx]))
     simp; omega
 
-/-- a RESOLVED message (entries carry their option runs) that `assign_option_indexes` + `build` can put on the wire -/
+/-- a RESOLVED message (entries carry their option runs) that `assign_option_indexes` + `build` can put on the wire:
+the option array AFTER the assignment (shared and repeated runs stored once) fits the 8-bit index space - exactly the
+encoder's own limit, however many options the entries name in total -/
 def SDHeader.WFresolved (m : SDHeader) : Prop :=
   m.flagsUnknown < 64 ∧ (∀ e ∈ m.entries, e.idx = none ∧ EntryFields e ∧ (∀ o ∈ e.opts1, o.WF) ∧ ∀ o ∈ e.opts2, o.WF) ∧
-  (∀ o ∈ m.options, o.WF) ∧ m.options.length + runsLen m.entries ≤ 256 ∧ m.entries.length < 268435456
+  (∀ o ∈ m.options, o.WF) ∧ (assignAll m.entries m.options).2.length ≤ 256 ∧ m.entries.length < 268435456
 
 theorem SDHeader.assign_wf (m : SDHeader) (h : m.WFresolved) : m.assignOptionIndexes.WFwire := by
   obtain ⟨h1, h2, h3, h4, h5⟩ := h
@@ -144,6 +146,24 @@ theorem SDHeader.assign_wf (m : SDHeader) (h : m.WFresolved) : m.assignOptionInd
   · simp only [SDHeader.assignOptionIndexes, b4]; omega
   · have := sum_wireLen_le _ hos
     simp only [SDHeader.assignOptionIndexes]
+    omega
+
+/-- a sufficient condition that does not mention the assignment: at most 256 options named in total -/
+theorem assignAll_length_le (es : List SDEntry) (opts : List SDOption) :
+    (assignAll es opts).2.length ≤ opts.length + runsLen es := by
+  induction es generalizing opts with
+  | nil => simp [assignAll, runsLen]
+  | cons e t ih =>
+    have b1 := assignOption_bounds e.opts1 opts
+    have b2 := assignOption_bounds e.opts2 (assignOption e.opts1 opts).2
+    simp only at b1 b2
+    have h := ih (e.assign opts).2
+    simp only [assignAll, runsLen, List.map_cons, List.sum_cons] at h ⊢
+    have he : (e.assign opts).2.length ≤ opts.length + e.opts1.length + e.opts2.length := by
+      unfold SDEntry.assign
+      split
+      · show opts.length ≤ _; omega
+      · show (assignOption e.opts2 (assignOption e.opts1 opts).2).2.length ≤ _; omega
     omega
 
 end Someip
